@@ -14,7 +14,9 @@ MANIFEST = {
     "design_ref": "3 C20",
     "note": ("Hand-written model of the five mutators and of the option accessors; that the mutated frame still encodes and round-trips "
              "is the frame theorem of C01 applied to a frame satisfying the invariant proved here, and is additionally observed on the "
-             "implementation for every generated sequence."),
+             "implementation for every generated sequence. Sequences that ignore the documented direction of a mutator (RequestTracingId on a "
+             "response, SetTracingId/SetWarnings on a request) are outside the theorem; for them the check judges on the implementation only "
+             "that no mutator panics and that whatever still encodes decodes again with declared length = emitted length."),
 }
 
 
@@ -46,6 +48,19 @@ def check(run):
     kinds = {}
     for r in recs:
         if r.get("misuse"):
+            # sequences that ignore the documented direction of a mutator (RequestTracingId on a response, SetWarnings on a request,
+            # a payload below v4): the flag/body invariants are characterised only, but two clauses are judged for them as well -
+            # no mutator panics, and whatever still encodes decodes again with the declared length equal to the emitted length
+            kinds["any-direction"] = kinds.get("any-direction", 0) + 1
+            distinct.add(("any-direction", r.get("kind"), r.get("version"), tuple(r.get("ops_coq", []))))
+            inv = r.get("invariants") or {}
+            if inv.get("no_panic") is False or (r.get("encode") == "ok" and (r.get("decode") != "ok" or r.get("lengths_ok") is not True)):
+                findings.append({"kind": "mutators-any-direction", "message_kind": r.get("kind"), "version": r.get("version"), "ops": r.get("ops"),
+                                 "flags_after": r.get("flags_after"), "encode": r.get("encode"), "decode": r.get("decode"), "lengths_ok": r.get("lengths_ok"),
+                                 "what": "mutator sequence %s on %s v%s (response=%s): the frame encodes but %s %s" % (
+                                     r.get("ops"), r.get("kind"), r.get("version"), r.get("response"),
+                                     "a mutator panicked" if inv.get("no_panic") is False else
+                                     ("does not decode" if r.get("decode") != "ok" else "its declared body length differs from the emitted bytes"), r.get("why", ""))})
             continue
         if r.get("kind") == "startup":
             kinds["startup"] = kinds.get("startup", 0) + 1
